@@ -44,7 +44,15 @@ type stepPlan struct {
 type histPlan struct {
 	CacheSize int // as in dns.ResolverConfig: 0 = default 1024, negative = unbounded
 	Names     int
+	NameStrs  []string // the names looked up (index = stepPlan.Name)
 	Steps     []stepPlan
+}
+
+func (p *histPlan) nameStr(i int) string {
+	if i < len(p.NameStrs) {
+		return p.NameStrs[i]
+	}
+	return nameOf(i)
 }
 
 var serverAP = netip.AddrPortFrom(netip.AddrFrom4([4]byte{192, 0, 2, 53}), 53)
@@ -60,6 +68,9 @@ func genHistPlan(rt *rapid.T) *histPlan {
 		capEff = 3
 	}
 	p.Names = capEff + rapid.IntRange(0, 2).Draw(rt, "extraNames")
+	for i := range p.Names {
+		p.NameStrs = append(p.NameStrs, genName(rt, i))
+	}
 	n := rapid.IntRange(3, 14).Draw(rt, "steps")
 	for i := range n {
 		var s stepPlan
@@ -84,6 +95,9 @@ func genHistPlan(rt *rapid.T) *histPlan {
 func (p *histPlan) describe() string {
 	var b strings.Builder
 	fmt.Fprintf(&b, "cacheSize=%d names=%d", p.CacheSize, p.Names)
+	for i, n := range p.NameStrs {
+		fmt.Fprintf(&b, "\n  n%d = %q (%d chars)", i, n, len(n))
+	}
 	for i := range p.Steps {
 		s := &p.Steps[i]
 		fmt.Fprintf(&b, "\n  step %d: name=n%d api=%d adv=%+v upstream(%s):", i, s.Name, s.API, s.Adv, s.Pattern)
@@ -224,7 +238,10 @@ func runHistory(t *testing.T, p *histPlan) (viol string, st *histStats) {
 		wantAddr := conn.AddrFromIPPort(serverAP)
 		for i := range p.Steps {
 			s := &p.Steps[i]
-			name := nameOf(s.Name)
+			name := p.nameStr(s.Name)
+			for _, l := range nameLabels(name) {
+				st.label(l)
+			}
 			e := lru.m[name]
 			// advance the virtual clock
 			switch s.Adv.Kind {
@@ -334,7 +351,7 @@ func runHistory(t *testing.T, p *histPlan) (viol string, st *histStats) {
 					for _, f := range []int{4, 6} {
 						st.label("acc-" + respKindNames[evl.acc[f].RK])
 						if pt := evl.acc[f].Msg.PadTo; pt > 0 {
-							st.label(bigClass(pt))
+							st.label(bigClass(len(wire(evl.acc[f], name, up.ids))))
 							st.label(fmt.Sprintf("tcp-response-%d-records+", len(evl.acc[f].Msg.Answers)/1000*1000))
 						}
 					}
@@ -404,7 +421,7 @@ func runHistory(t *testing.T, p *histPlan) (viol string, st *histStats) {
 var bubbleEpoch = time.Date(2000, 1, 1, 0, 0, 0, 0, time.UTC)
 
 var recHist = ev.New("C17", "tcp-histories",
-	"rapid + synctest: TCP-only resolver built through dns.ResolverConfig, cache size {1..4, default, unbounded}, capacity+0..2 names, 3..14 lookups "+
+	"rapid + synctest: TCP-only resolver built through dns.ResolverConfig, cache size {1..4, default, unbounded}, capacity+0..2 names (40 % everyday names, else total length from {1,2,3,63,64,65,127,128,200, every value 240..253} built from 63-byte labels / 1-byte labels / mixed labels), 3..14 lookups "+
 		"(Lookup/LookupIP/LookupIPs); before each lookup the virtual clock is advanced by nothing, a fixed amount (1 ms..1 d, 30 s±1 ms) or to an admissible "+
 		"expiry instant of the name's entry ±{0,1 ms,1 s,10 s}; each lookup has a scripted upstream of up to two connections whose items are acceptable responses "+
 		"(addresses with CNAME/TXT/MX/other-family RRs mixed in, large answers padded to exactly 512/1232/1234/4096/16384/65535 bytes -1..+40 with up to 4000 A / 2300 AAAA records, NODATA/NXDOMAIN with/without SOA, failure rcodes, TC over TCP; TTL alphabet 0..2^31-1 plus 2^31, 2^32-1) "+
@@ -412,7 +429,7 @@ var recHist = ev.New("C17", "tcp-histories",
 		"optionally delayed (1 ms..25 s), plus dial errors. Oracle: reference model over the items the upstream saw consumed. "+
 		"Non-trivial: the history re-queries an entry whose admissible expiry passed AND has a failed lookup followed by a successful one for the same name; "+
 		"distinct key = cache size, name count and per-step (name, hit/miss/evict/fail/stale) string").
-	Require("failure-is-ErrLookup", "expiry-crossed", "failure-then-success", "stale-served-after-failed-refresh", "lru-eviction", "at-expiry-instant", "expiry+1ms", "expiry-1ms",
+	Require("name-length>=243", "name-length-253", "name-length<=2", "label-63-bytes", "failure-is-ErrLookup", "expiry-crossed", "failure-then-success", "stale-served-after-failed-refresh", "lru-eviction", "at-expiry-instant", "expiry+1ms", "expiry-1ms",
 		"second-connection", "timeout-20s", "tcp-response>512B", "tcp-response>1234B", "tcp-response>4096B", "tcp-response>16384B", "tcp-response>=65000B", "consumed-wrongid", "consumed-notresp", "consumed-nora", "consumed-garbage", "consumed-zerolen", "consumed-midclose",
 		"consumed-cut", "acc-failure-rcode", "acc-nxdomain+soa", "acc-nodata+soa", "acc-nodata", "acc-tc-over-tcp", "expiry-choice-open")
 
@@ -441,7 +458,9 @@ func writeJournal(name string, v any) string {
 
 // checkPadding makes sure the encoder really produces the sizes the labels claim.
 func checkPadding(t *testing.T) {
-	for _, name := range []string{nameOf(0), "udp.verif.test"} {
+	// exact unless fewer than 13 bytes remain to pad (possible for the longest names only); the
+	// evidence labels use the real wire size
+	for _, name := range []string{nameOf(0), "udp.verif.test", makeName(63, 0, 1, 'a'), makeName(200, 2, 2, 'b')} {
 		for _, target := range []int{511, 512, 1232, 1233, 1234, 1235, 4096, 16384, 65534, 65535} {
 			for _, fam := range []int{4, 6} {
 				for _, opt := range []bool{false, true} {
